@@ -191,7 +191,7 @@ func check(w *world, content []stored, queryIDs []id, triples []id) {
 			}
 		}
 		// non-governance batch: ask for every sequence of the alphabet
-		asked := []uint64{0, 1, 2, 9, 10, 11, 12}
+		asked := []uint64{10, 0, 12, 1, 11, 2, 9} // deliberately not monotone
 		nb, err := w.rpc.GetNonGovernanceVAABatch(ctx, &publicrpcv1.GetNonGovernanceVAABatchRequest{EmitterChain: publicrpcv1.ChainID(t.Chain), EmitterAddress: hexa(t.Addr), TargetChain: publicrpcv1.ChainID(t.Target), Sequences: asked})
 		if err != nil {
 			viol("GetNonGovernanceVAABatch returns an error", err.Error(), content, t)
@@ -212,7 +212,7 @@ func check(w *world, content []stored, queryIDs []id, triples []id) {
 		}
 	}
 	// ---- governance batch (governance emitter = chain 1, address #1), for several asked-sequence lists
-	for _, asked := range [][]uint64{{0, 1, 2, 9, 10, 11}, {1}, {10, 11}, {}} {
+	for _, asked := range [][]uint64{{0, 1, 2, 9, 10, 11}, {1}, {10, 11}, {}, {2, 0, 1}, {1, 2, 0}, {11, 1, 10, 0}, {10, 0, 11, 1, 9}, {11, 10, 9, 2, 1, 0}, {1, 1, 10}} {
 		atomic.AddInt64(&queries, 1)
 		gb, err := w.rpc.GetGovernanceVAABatch(ctx, &publicrpcv1.GetGovernanceVAABatchRequest{Sequences: asked})
 		if err != nil {
